@@ -1016,3 +1016,7 @@ mod tests {
         }
     }
 }
+
+#[cfg(any(kani, verif_replay))]
+#[path = "/verif/kani/events.rs"]
+pub(crate) mod verif_kani_events;
